@@ -376,7 +376,14 @@ func (c *c20gChild) send(q c20gReq) c20gResp {
 	if q.Raw != nil {
 		return c.sendRaw(q.Raw)
 	}
+	if !strings.HasPrefix(q.Target, "/") {
+		q.Target = "/" + q.Target
+	}
 	rsp := c.cl.Do(q.Method, q.Target, q.Hdr, q.Body)
+	if strings.HasPrefix(rsp.Err, "bad request:") {
+		// the client library itself refuses to build this request (e.g. an escape its URL parser rejects): nothing was sent
+		return c20gResp{status: -1}
+	}
 	for try := 0; try < 3 && rsp.Err != "" && c.alive(); try++ {
 		// A connection can be reset under the client by the HTTP stack itself (the server answers a request whose body
 		// is still in flight and closes; a keep-alive connection dies for reasons of an earlier exchange). Only a failure
